@@ -899,7 +899,7 @@ def r152(ctx, repo):
     if set(bb) != {WP, WV}:
         raise AnalysisError("PolygonFilter.filter: arguments of "
                             "points_in_poly not understood")
-    ok = is_self_attr(bb[WV], "points")
+    ok = is_self_attr(deref(filt, bb[WV]), "points")
     ctx.ob("R15.2", ok, "the vertices are self.points" if ok else
            f"vertices passed are `{short(bb[WV], 30)}`, not self.points",
            node=call, label="filter verts")
@@ -952,7 +952,9 @@ def r152(ctx, repo):
            "(or a float64 x) into it truncates / rounds them before the "
            "containment test (e.g. `index` as x axis: y cast to int)",
            node=alloc[0], label="filter buffer float64")
-    _inversion(ctx, filt, call)
+    if _filter_stateless(ctx, filt, call):
+        _inversion(ctx, filt, call)
+    _digest_coverage(ctx, repo, filt)
 
     # PolygonFilter.point_in_poly uses the same routine
     pp = repo.func(POLY, "PolygonFilter.point_in_poly")
@@ -1389,6 +1391,129 @@ def _imports(repo, rel, mod_tail, name):
                 if a.name == name and (a.asname in (None, name)):
                     return True
     return False
+
+
+def _filter_stateless(ctx, filt, call):
+    """filter() returns a classification created in this call: it stores
+    nothing on the instance / class and the mask it inverts and returns is
+    the result of this call's containment test"""
+    stores = []
+    for n in walk(filt):
+        tg = []
+        if isinstance(n, ast.Assign):
+            tg = n.targets
+        elif isinstance(n, (ast.AugAssign, ast.AnnAssign)):
+            tg = [n.target]
+        elif isinstance(n, (ast.Global, ast.Nonlocal)):
+            stores.append(n)
+        for t in tg:
+            b = t
+            while isinstance(b, ast.Subscript):
+                b = b.value
+            if isinstance(b, ast.Attribute) and (
+                    txt(b.value) in ("self", "PolygonFilter", "type(self)",
+                                     "self.__class__", "cls")):
+                stores.append(n)
+        if isinstance(n, ast.Call) and isinstance(
+                n.func, ast.Attribute) and n.func.attr in (
+                "append", "update", "setdefault", "pop", "clear", "add",
+                "extend", "insert") and isinstance(
+                n.func.value, ast.Attribute) and txt(
+                n.func.value.value) in ("self", "PolygonFilter", "cls",
+                                        "type(self)", "self.__class__"):
+            stores.append(n)
+    st = call.parent
+    alias = []
+    if isinstance(st, ast.Assign) and len(st.targets) == 1 and isinstance(
+            st.targets[0], ast.Name):
+        fv = st.targets[0].id
+        for n in walk(filt):
+            if isinstance(n, ast.Assign) and n is not st and any(
+                    isinstance(t, ast.Name) and t.id == fv
+                    for t in n.targets) and fv not in names_in(n.value):
+                alias.append(n)
+    ok = not stores and not alias
+    ctx.ob("R15.2", ok,
+           "filter() keeps no state: nothing is stored on the instance or "
+           "the class, and the mask it inverts and returns is created by "
+           "this call's containment test" if ok else
+           (f"filter() stores `{short(stores[0], 40)}` on the instance / "
+            "class: a classification remembered between calls is inverted "
+            "in place by the next call (every second call is wrong) and "
+            "does not see changed inversion" if stores else
+            f"`{short(alias[0], 40)}`: the mask that is inverted in place "
+            "and returned is not created in this call"),
+           node=(stores or alias or [filt])[0], label="filter stateless")
+    return ok
+
+
+def _digest_coverage(ctx, repo, filt):
+    """every hash-like property of a polygon filter that Filter.update
+    consults to re-use a cached classification digests everything the
+    classification reads (vertices, inversion, axes)"""
+    cls = repo.cls(POLY, "PolygonFilter")
+    props = {}
+    for f in cls.body:
+        if isinstance(f, ast.FunctionDef) and any(
+                txt(d) == "property" for d in f.decorator_list):
+            props[f.name] = f
+    hashlike = {n: f for n, f in props.items()
+                if any(isinstance(c, ast.Call) and (call_name(c) or ""
+                                                    ).split(".")[-1] in (
+                    "hashobj", "md5", "sha256", "hash", "hashfile")
+                    for c in walk(f))}
+    upd = repo.func(FILT, "Filter.update")
+    pfs = {n.targets[0].id for n in walk(upd) if isinstance(n, ast.Assign)
+           and isinstance(n.targets[0], ast.Name) and isinstance(
+               n.value, ast.Call) and last_attr(n.value) in (
+               "get_instance_from_id",)}
+    if len(pfs) != 1:
+        raise AnalysisError("Filter.update: polygon filter instance "
+                            "variable not found")
+    pf = pfs.pop()
+    reads = [n for n in walk(upd) if isinstance(n, ast.Attribute)
+             and isinstance(n.value, ast.Name) and n.value.id == pf]
+    methods = {f.name for f in cls.body if isinstance(f, ast.FunctionDef)
+               and f.name not in props}
+    # what the classification depends on
+    need = {n.attr for n in walk(filt) if is_self_attr(n) and isinstance(
+        n.ctx, ast.Load) and n.attr not in methods
+        and not n.attr.startswith("_")}
+    need |= {n.attr for n in reads if n.attr not in hashlike
+             and n.attr not in methods}
+    used = sorted({n.attr for n in reads if n.attr in hashlike})
+    if not used:
+        raise AnalysisError("Filter.update consults no digest of the "
+                            "polygon filter")
+    for h in used:
+        covered = {n.attr for n in walk(hashlike[h]) if is_self_attr(n)}
+        # attributes compared next to the digest (same statement) count
+        side = set()
+        for n in reads:
+            if n.attr == h:
+                stt = n
+                while not isinstance(stt, ast.stmt):
+                    stt = stt.parent
+                roots = [stt.test] if isinstance(stt, ast.If) else [stt]
+                for r_ in roots:
+                    side |= {m.attr for m in ast.walk(r_)
+                             if isinstance(m, ast.Attribute) and isinstance(
+                                 m.value, ast.Name) and m.value.id == pf
+                             and m.attr not in hashlike
+                             and m.attr not in methods}
+        # (data selectors such as pf.axes[0] inside the same statement as a
+        # digest would be an unusual shape; they are not in today's code)
+        miss = sorted(need - covered - side)
+        ctx.ob("R15.2", not miss,
+               f"the digest `{h}` consulted by Filter.update covers "
+               f"everything the classification reads ({sorted(need)})"
+               if not miss else
+               f"Filter.update re-uses cached polygon results on the digest "
+               f"`{h}`, which does not cover {miss}: a filter whose "
+               f"{miss[0]} changed keeps (or flips) the classification of "
+               "the old one", node=hashlike[h],
+               key=f"{POLY}::PolygonFilter.{h}::digest covers classification "
+               "inputs")
 
 
 def _is_diagnostic(call):
@@ -2203,7 +2328,8 @@ def run(ctx):
     ctx.rule("R15.2", "x/y columns and counts reach the compiled routine "
              "consistently through every wrapper in a float64 buffer; "
              "inversion iff self.inverted (filter and copy); vertices read "
-             "through the normalising property", minimum=22)
+             "through the normalising property; filter() stateless; cache "
+             "digests cover the classification inputs", minimum=24)
     ctx.rule("R15.3", "save/_load agree on keys, attribute mapping, header "
              "and index parsing, first-'=' split; >= 17 significant digits",
              minimum=28)
@@ -2357,6 +2483,28 @@ MUTANTS = [
        "        mask[0:stop - start] = _points_in_poly(points[start:stop],\n"
        "                                               verts)\n"
        "    return mask\n")], "R15.2"),
+    ("filter memoises its last classification (seeded C15_12)", POLY,
+     [("    _instance_counter = 0\n\n    def __init__(",
+       "    _instance_counter = 0\n    _memo = None\n\n    def __init__("),
+      ("        points = np.zeros((datax.shape[0], 2), dtype=np.float64)\n"
+       "        points[:, 0] = datax\n        points[:, 1] = datay\n"
+       "        f = points_in_poly(points=points, verts=self.points)\n",
+       "        verts = self.points\n        memo = self._memo\n"
+       "        if (memo is not None and memo[0] is datax and memo[1] is "
+       "datay\n                and np.array_equal(memo[2], verts)):\n"
+       "            f = memo[3]\n        else:\n"
+       "            points = np.zeros((datax.shape[0], 2), "
+       "dtype=np.float64)\n"
+       "            points[:, 0] = datax\n            points[:, 1] = datay\n"
+       "            f = points_in_poly(points=points, verts=verts)\n"
+       "            self._memo = (datax, datay, verts, f)\n")], "R15.2"),
+    ("filter remembers its last result on the instance", POLY,
+     ("        f = points_in_poly(points=points, verts=self.points)\n",
+      "        f = points_in_poly(points=points, verts=self.points)\n"
+      "        self._last_result = f\n"), "R15.2"),
+    ("polygon digest omits the axes", POLY,
+     ("return hashobj([self.axes, self.points, self.inverted])",
+      "return hashobj([self.points, self.inverted])"), "R15.2"),
     ("inversion result discarded", POLY,
      ("            np.invert(f, f)\n", "            np.invert(f)\n"),
      "R15.2"),
@@ -2472,6 +2620,10 @@ TWINS = [
        "        mask[start:stop] = _points_in_poly(points[start:stop], "
        "verts)\n"
        "    return mask\n")]),
+    ("vertices bound to a local before the containment test", POLY,
+     ("        f = points_in_poly(points=points, verts=self.points)\n",
+      "        verts = self.points\n"
+      "        f = points_in_poly(points=points, verts=verts)\n")),
     ("filter returns the complement by expression", POLY,
      ("            np.invert(f, f)\n", "            f = ~f\n")),
     ("save with f-strings", POLY,
